@@ -22,7 +22,9 @@ Inductive case :=
 | CScript (script : list op) (observed : obs) (order : list Z)
 | CConc (nstay : Z) (calls : list call) (stay : list (list Z))
         (leaver : option (list Z)) (late : option (Z * list Z)) (order : list Z)
-| CRush (nsub nb : Z) (late : list (list Z)).
+| CRush (nsub nb : Z) (late : list (list Z))
+| CConcClose (calls : list call) (seqs : list (list Z)) (closes : list (Z * Z)) (order : list Z)
+| CDup (k nb : Z) (leave : option Z) (shared other : list Z).
 
 (* ---------------------------------------------------------------------------------------- *)
 (* run to quiescence, noting order-dependent choices *)
@@ -63,15 +65,17 @@ Fixpoint quiesce_amb (fuel : nat) (vr : variant) (s : st) (amb : bool) : st * bo
 (* ---------------------------------------------------------------------------------------- *)
 (* one script step *)
 
-Definition env_event (n : Z) (o : op) : ev :=
+(* the environment events of one script step; [second] = a Close call was issued before *)
+Definition env_events (second : bool) (n : Z) (o : op) : list ev :=
   match o with
-  | OSub p => SubCall n p
-  | OBcast => BcCall n
-  | ORead i => Want (Z.to_nat i)
-  | OReadAll i => WantAll (Z.to_nat i)
-  | OCancel i => Cancel (Z.to_nat i)
-  | OClose => CloseCall
-  | ONop => CloseWait     (* not used: see drive_step *)
+  | OSub p => [SubCall n p]
+  | OSubDead p => [SubCall n p; CancelPending n]
+  | OBcast => [BcCall n]
+  | ORead i => [Want (Z.to_nat i)]
+  | OReadAll i => [WantAll (Z.to_nat i)]
+  | OCancel i => [Cancel (Z.to_nat i)]
+  | OClose => [if second then Close2Call else CloseCall]
+  | ONop => []
   end.
 
 Definition op_ok (o : op) : bool :=
@@ -101,40 +105,46 @@ Definition sub_events (n : Z) (before after : list sub) : list (Z * oev) :=
 Definition is_returned (c : closepc) : bool := match c with CReturned => true | _ => false end.
 
 (* calls that returned between two states, by increasing id *)
-Definition done_events (n : Z) (close_id : option Z) (s0 s1 : st) : list (Z * oev) :=
+Definition done_events (n : Z) (close_id close2_id : option Z) (s0 s1 : st) : list (Z * oev) :=
   let b_done := skipn (length (bret s0)) (bret s1) in
   let s_done := skipn (length (sret s0)) (sret s1) in
   let c_done := match close_id with
                 | Some c => if is_returned (cl s1) && negb (is_returned (cl s0)) then [c] else []
                 | None => [] end in
-  map (fun c => (n, EDone c)) (sortZ (b_done ++ s_done ++ c_done)).
+  let c2_done := match close2_id with
+                 | Some c => if is_returned (cl2 s1) && negb (is_returned (cl2 s0)) then [c] else []
+                 | None => [] end in
+  map (fun c => (n, EDone c)) (sortZ (b_done ++ s_done ++ c_done ++ c2_done)).
 
 Record drv := mkDrv {
   d_st : st;
-  d_close : option Z;       (* step of the Close call *)
+  d_close : option Z;       (* step of the first Close call *)
+  d_close2 : option Z;      (* step of the second Close call *)
   d_amb : bool;             (* an order-dependent choice was met *)
   d_bad : bool;             (* the script left the model's domain (touches a subscriber that does
-                               not exist yet, closes twice) *)
+                               not exist yet, calls Close a third time) *)
   d_obs : list (Z * oev)
 }.
 
+Definition is_close (o : op) : bool := match o with OClose => true | _ => false end.
+
 Definition drive_step (vr : variant) (d : drv) (n : Z) (o : op) : drv :=
   let s0 := d_st d in
-  match (match o with
-         | ONop => Some s0
-         | _ => if op_ok o then step vr s0 (env_event n o) else None
-         end) with
-  | None => mkDrv s0 (d_close d) (d_amb d) true (d_obs d)
+  let second := match d_close d with Some _ => true | None => false end in
+  match (if op_ok o then run vr s0 (env_events second n o) else None) with
+  | None => mkDrv s0 (d_close d) (d_close2 d) (d_amb d) true (d_obs d)
   | Some s_env =>
-      let close_id := match o with OClose => Some n | _ => d_close d end in
+      let close_id := if is_close o && negb second then Some n else d_close d in
+      let close2_id := if is_close o && second then Some n else d_close2 d in
       let '(s1, amb) := quiesce_amb (measure s_env) vr s_env (d_amb d) in
-      mkDrv s1 close_id amb (d_bad d)
-            (d_obs d ++ sub_events n (subs s0) (subs s1) ++ done_events n close_id s0 s1)
+      mkDrv s1 close_id close2_id amb (d_bad d)
+            (d_obs d ++ sub_events n (subs s0) (subs s1)
+                     ++ done_events n close_id close2_id s0 s1)
   end.
 
 Definition drive (vr : variant) (sc : list op) : drv :=
   fold_left (fun d no => drive_step vr d (fst no) (snd no)) (zindex sc)
-            (mkDrv init None false false []).
+            (mkDrv init None None false false []).
 
 Definition oev_eqb (a b : oev) : bool :=
   match a, b with
@@ -213,6 +223,16 @@ Definition rush_model (vr : variant) (nsub nb : nat) : list (list Z) :=
   let s3 := fold_left (fun s i => do_env vr s (WantAll i)) (seq 0 nsub) s2 in
   map received (subs s3).
 
+(* one channel subscribed [k] times + one ordinary subscriber (all consumers prompt): in the model
+   these are k + 1 subscribers; the shared consumer sees the merge of the k sequences, whose r-th
+   occurrences are the sequence of the r-th subscription (the leaving one is the last).  Answer:
+   the k sequences, [] (nothing a (k+1)-th time), the ordinary subscriber's sequence. *)
+Definition dup_model (vr : variant) (k nb : nat) (leave : option nat) : list (list Z) :=
+  let s0 := conc_init vr (S k) in
+  let s1 := conc_run vr s0 (zs nb) 0
+                     (match leave with Some m => Some (pred k, m) | None => None end) None in
+  map received (firstn k (subs s1)) ++ [[]] ++ map received (skipn k (subs s1)).
+
 (* ---------------------------------------------------------------------------------------- *)
 
 Definition oracle (c : case) : bool :=
@@ -221,6 +241,9 @@ Definition oracle (c : case) : bool :=
   | CConc n calls stay leaver late w =>
       (Z.of_nat (length stay) =? n)%Z && (1 <=? n)%Z && conc_oracle calls stay leaver late w
   | CRush nsub _ late => (Z.of_nat (length late) =? nsub)%Z && rush_oracle late
+  | CConcClose calls seqs closes w => cc_oracle calls seqs closes w
+  | CDup k nb leave shared other =>
+      (2 <=? k)%Z && dup_oracle (Z.to_nat k) (Z.to_nat nb) (option_map Z.to_nat leave) shared other
   end.
 
 Definition model_agrees (c : case) : bool :=
@@ -233,6 +256,10 @@ Definition model_agrees (c : case) : bool :=
   | CConc n calls stay leaver late w =>
       eqb_llz (conc_model Fixed (Z.to_nat n) w leaver late) (conc_observed stay leaver late)
   | CRush nsub nb late => eqb_llz (rush_model Fixed (Z.to_nat nsub) (Z.to_nat nb)) late
+  | CConcClose _ _ _ _ => true   (* which buffered values survive a racing Close is not fixed: oracle only *)
+  | CDup k nb leave shared other =>
+      let m := dup_model Fixed (Z.to_nat k) (Z.to_nat nb) (option_map Z.to_nat leave) in
+      eqb_llz (map (fun r => rank_seq r shared) (seq 0 (S (Z.to_nat k))) ++ [other]) m
   end.
 
 (* 0 = agree and the oracle holds; 1 = model and implementation differ (or the script is outside
